@@ -45,6 +45,8 @@ class RegWorld:
         self.factory = self._inst("factory", {"pair_code_id": self.codes["pair"], "token_code_id": self.codes["cw20"]})
         self.tokens = []
         self.dead = set()
+        self.remodelled = set()
+        self.broken = set()
         self.true_dec = {}
         for i in range(n_tokens):
             dec = rng.choice([0, 6, 8, 18])
@@ -67,6 +69,45 @@ class RegWorld:
 
     NOISE = ["migrate_pair", "migrate_pair", "update_config_code", "owner_direct_update", "stranger_direct_update",
              "padded_denom", "migrate_factory"]
+
+    def remodel_token(self, rng, acc):
+        """a cw20's issuer migrates it to another cw20 implementation that reports OTHER decimals (the token stays alive). Pairs
+        that exist keep what was recorded when they were created; pairs created from now on must record the new true decimals."""
+        live = [t for t in self.tokens if t not in self.dead]
+        if not live:
+            return None
+        t = rng.choice(live)
+        new = rng.choice([x for x in (0, 3, 6, 9, 12, 18) if x != self.true_dec[("t", t)]])
+        r = self.srv.send({"op": "migrate", "sender": "owner", "contract": t, "code": "ltoken", "msg": json.dumps({"decimals": new})})
+        acc.ev()
+        acc.cls("admin_noise", "remodel_token", r["r"])
+        acc.count("admin_noise_remodel_token_" + r["r"])
+        if r["r"] == "ok":
+            self.true_dec[("t", t)] = new
+            self.remodelled.add(t)
+        return t
+
+    def break_pair(self, rng, acc):
+        """the owner migrates a pair to the ROUTER's code id by mistake (accepted: the router's migrate takes the empty message);
+        until it is migrated back the pair answers nothing a pair answers"""
+        cands = [rec for rec in self.model.values() if rec["addr"] not in self.broken]
+        if not cands:
+            return None
+        rec = rng.choice(cands)
+        r = self.x("owner", self.factory, {"migrate_pair": {"contract": rec["addr"], "code_id": self.codes["router"]}})
+        acc.ev()
+        acc.cls("admin_noise", "break_pair", r["r"])
+        acc.count("admin_noise_break_pair_" + r["r"])
+        if r["r"] == "ok":
+            self.broken.add(rec["addr"])
+        return rec
+
+    def repair_pairs(self, acc):
+        for addr in sorted(self.broken):
+            r = self.x("owner", self.factory, {"migrate_pair": {"contract": addr, "code_id": self.codes["pair"]}})
+            acc.count("admin_noise_repair_pair_" + r["r"])
+            if r["r"] == "ok":
+                self.broken.discard(addr)
 
     def kill_token(self, rng, acc):
         """a cw20's issuer migrates it to unrelated code: from then on it answers no token query. Pairs that trade it stay
